@@ -148,6 +148,14 @@ def run(chk):
         base = rng.choice([["CASSF"], ["A"], ["CASSF", "CASSL"], ["AC", "AD", "A"], gen.sub_collection(rng, pools[0][1], 3)])
         xs = [rng.choice(base) for _ in range(rng.choice([6, 8, 15, 30, 60]))]
         add("symdel|clone-expansion", xs, rng.choice([1, 1, 2]), model=len(xs) <= 15)
+    # every run: CROWDED deletion-variant buckets (40-60 members) that hold distinct one-substitution variants AND exact copies
+    # (pairs at distance 0 and 1 from one bucket), and long clone expansions of 33-70 copies
+    from harness.gen import AA as _AA
+    for base_, kk in (("CASSLGQAYEQYF", 1), ("CASSLGQAYEQYF", 2), ("CAVF", 1)):
+        fam = [base_[:2] + a + base_[3:] for a in _AA]
+        add("symdel|crowded-bucket", fam + fam[:15] + [base_] * 5 + [base_[:2] + base_[3:]] * 3, kk, model=False)
+    for ncopy in (33, 47, 70):
+        add("symdel|clone-expansion", ["CASSF"] * ncopy + ["CASSL"] * 2, 1, model=False)
     # histories: the self-search runs AFTER other searches in the same process that share sequences with it
     # (two-collection queries in both roles, other radii, other engines, other modes): the answer is that of a first call
     def prelude_fn(pre):
